@@ -99,6 +99,22 @@ func (z *Zoo) Nan(ctx *impls.HandlerContext, a *Arg, cb apientry.HandlerCBFunc) 
 	apientry.CheckInvokeCBFunc(cb, nil, &RetNaN{F: math.NaN()})
 }
 
+// Login binds a user id to the session and pushes the session to the front (as a login handler
+// does) WITHOUT waiting for the push, then completes like Echo.
+func (z *Zoo) Login(ctx *impls.HandlerContext, a *Arg, cb apientry.HandlerCBFunc) {
+	_, r := enter(ctx, "login", a)
+	ctx.Session.Bind(fmt.Sprintf("u%d", a.V))
+	ctx.Session.PushSession(nil)
+	apientry.CheckInvokeCBFunc(cb, nil, r)
+}
+
+// Loginw completes only after the front acknowledged the pushed session.
+func (z *Zoo) Loginw(ctx *impls.HandlerContext, a *Arg, cb apientry.HandlerCBFunc) {
+	_, r := enter(ctx, "loginw", a)
+	ctx.Session.Bind(fmt.Sprintf("u%d", a.V))
+	ctx.Session.PushSession(func(error) { apientry.CheckInvokeCBFunc(cb, nil, r) })
+}
+
 // Tell is notify-shaped (no completion function).
 func (z *Zoo) Tell(ctx *impls.HandlerContext, a *Arg) {
 	enter(ctx, "tell", a)
@@ -112,7 +128,17 @@ type world struct {
 	clients []*node.Client
 }
 
-var svcNames = []string{"gate-1", "chat-1", "chat-2", "hall-1"}
+var svcNames = []string{"gate-1", "chat-1", "chat-2", "hall-1", "hall-2"}
+
+// members: node n2 (chat-2, hall-2; listed first) in the given state, node n1 (gate-1, chat-1,
+// hall-1 and the ghost chat-9) always Working
+func members(n2 int) []*cluster.Member {
+	return []*cluster.Member{
+		{Id: "c@n2", Host: "h", Port: 2, State: n2, Services: []string{"chat.chat-2", "hall.hall-2"}},
+		{Id: "c@n1", Host: "h", Port: 1, State: int(define.Working),
+			Services: []string{"gate.gate-1", "chat.chat-1", "hall.hall-1", "chat.chat-9"}},
+	}
+}
 
 func start(h *hx.T) *world {
 	for _, t := range []string{"gate", "chat", "hall"} {
@@ -121,10 +147,9 @@ func start(h *hx.T) *world {
 	node.RouteBySessionKey("chat", "chatid")
 	n := node.Start(node.Options{
 		Services: []node.Svc{{Name: "gate-1", Type: "gate", Front: true}, {Name: "chat-1", Type: "chat"},
-			{Name: "chat-2", Type: "chat"}, {Name: "hall-1", Type: "hall"}},
+			{Name: "chat-2", Type: "chat"}, {Name: "hall-1", Type: "hall"}, {Name: "hall-2", Type: "hall"}},
 		// chat-9 is listed in the directory but no actor lives behind its PID
-		Members: []*cluster.Member{{Id: "c@n1", Host: "h", Port: 1, State: int(define.Working),
-			Services: []string{"gate.gate-1", "chat.chat-1", "chat.chat-2", "hall.hall-1", "chat.chat-9"}}},
+		Members: members(int(define.Working)),
 	})
 	return &world{h: h, n: n}
 }
@@ -199,6 +224,7 @@ func (w *world) exec(op string) string {
 			c.Close()
 		}
 		w.clients = nil
+		w.n.SetTopology(members(int(define.Working)))
 		// whatever an earlier (possibly truncated) case left in flight is over after 45 s
 		w.n.Advance(45 * time.Second)
 		for _, s := range svcNames {
@@ -348,6 +374,16 @@ func (w *world) exec(op string) string {
 		<-done
 		w.n.Wait()
 		return w.collect()
+	case "topo":
+		// the cluster view changes (real Cluster.UpdateClusterTopology): node n2 gets another state
+		st, ok := hx.KV(ws, "n2")
+		k, err := strconv.Atoi(st)
+		if !ok || err != nil || k < 0 || k > 5 {
+			return "bad-op"
+		}
+		w.n.SetTopology(members(k))
+		w.n.Wait()
+		return "ok"
 	case "adv":
 		w.n.Advance(5 * time.Second)
 		return w.collect()
@@ -363,7 +399,7 @@ func (w *world) exec(op string) string {
 var (
 	types      = []string{"gate", "gate", "chat", "chat", "chat", "hall", "room"}
 	groups     = []string{"zoo", "zoo", "zoo", "zoo", "zoo", "zoo", "zoo", "zoo", "nogrp", ""}
-	methods    = []string{"echo", "echo", "echo", "fail", "boom", "slow", "slow", "late", "tell", "tell", "nan", "nosuch", ""}
+	methods    = []string{"echo", "echo", "echo", "fail", "boom", "slow", "slow", "late", "tell", "tell", "nan", "login", "loginw", "nosuch", ""}
 	// routes that are not valid UTF-8 (%xx = raw byte): a forwarded envelope can not be serialised
 	badUTF8    = []string{"hall.zoo.ech%ff", "chat.zoo.%c3%28", "hall.%fezoo.echo", "chat.zoo.echo%80", "gate.zoo.ech%ff", "ha%ffll.zoo.echo"}
 	malformed  = []string{"", ".", "..", "...", "gate", "gatezooecho", "gate.zoo", "chat.zoo", "gate.zoo.echo.x", "chat.zoo.echo.x", "a.b.c.d.e", "gate..", "chat..", "..echo", ".zoo.echo", "gate.zoo.", "chat..echo", "gate.zoo.echo.", ".gate.zoo.echo"}
@@ -516,6 +552,13 @@ func (g *gen) genCase() []string {
 			g.h.Count("pipe")
 			ops = append(ops, fmt.Sprintf("pipe c=%d q=%s", nc, strings.Join(items, "|")))
 			nc++
+			continue
+		}
+		if r.Intn(14) == 0 {
+			// node n2 (chat-2, hall-2) changes state: Init / Working / Retiring / Retired
+			st := []int{0, 1, 1, 2, 2, 3}[r.Intn(6)]
+			g.h.Count(fmt.Sprintf("topo.n2=%d", st))
+			ops = append(ops, fmt.Sprintf("topo n2=%d", st))
 			continue
 		}
 		if r.Intn(12) == 0 {
